@@ -58,3 +58,23 @@ func VerifSchemaFieldNames() []string {
 // Named string types for the representation templates (C08, C11, C12).
 type VerifStr string
 type VerifKey string
+
+// verifHashPair hashes two values with one fresh seed (C12 hash-law kernel).
+func verifHashPair(x, y any) (uint64, uint64) {
+	seed := maphash.MakeSeed()
+	var h1, h2 maphash.Hash
+	h1.SetSeed(seed)
+	hashValue(&h1, reflect.ValueOf(x))
+	h2.SetSeed(seed)
+	hashValue(&h2, reflect.ValueOf(y))
+	return h1.Sum64(), h2.Sum64()
+}
+
+func VerifHashPairSeed(seed maphash.Seed, x, y any) (uint64, uint64) {
+	var h1, h2 maphash.Hash
+	h1.SetSeed(seed)
+	hashValue(&h1, reflect.ValueOf(x))
+	h2.SetSeed(seed)
+	hashValue(&h2, reflect.ValueOf(y))
+	return h1.Sum64(), h2.Sum64()
+}
